@@ -130,6 +130,9 @@ func (l *Log) addChainOrPreChain(ctx context.Context, reqBody io.ReadCloser, che
 	}
 
 	body, err := io.ReadAll(reqBody)
+	if errors.As(err, new(*http.MaxBytesError)) {
+		return nil, http.StatusRequestEntityTooLarge, fmtErrorf("request body too large: %w", err)
+	}
 	if err != nil {
 		return nil, http.StatusInternalServerError, fmtErrorf("failed to read body: %w", err)
 	}
